@@ -121,6 +121,8 @@ def oracle(ctx, only=None):
                                      min_quality=0.45 if 'tol' in opt else 0.0)
                     if np.count_nonzero(m.f2t[1] != -1) > 0:
                         break
+                if mk == 'adaptive':
+                    c03_oracle.check_sorted(m, desc, ctx.fail)
                 try:
                     n, w = _quiet(c03_oracle.jumps, m, label, f, kind, rng, ctx.fail, desc, tol=opt.get('tol', c03_oracle.TOL))
                 except Exception as ex:  # noqa — exception of the implementation on a valid mesh: failing input
@@ -156,7 +158,7 @@ def run(ctx, only=None):
                         'trace lemma not generated for: ' + '; '.join(f'{k}: {v}' for k, v in c03_gen.TRACE_SPECIAL.items())
                         + '; ElementGlobal family, ElementLinePp/QuadP, ElementTriBDM1 (no symbolic polynomials), wedge (two facet kinds)']
     ctx.cov['rule'] = ('oracle: every element with a continuity claim x {delaunay, structured, jiggled, curved second-order} meshes of its '
-                       'cell type x random vertex renumbering + cell permutation x random admissible local vertex order (any for '
+                       'cell type, plus (simplices) library-produced meshes: refined(random marked cells) followed by random uniform refinement / translated / scaled / with_boundaries / further adaptive steps (these must again have sorted cells) x random vertex renumbering + cell permutation x random admissible local vertex order (any for '
                        'simplices, cyclic shifts for quadrilaterals, 24 rotations for hexahedra) through the default constructors x all '
                        'interior facets x 5-7 points per facet x a random coefficient vector; non-trivial = at least 2 interior facets; '
                        'distinct by mesh content')
